@@ -121,7 +121,7 @@ Proof. eexists. vm_compute. reflexivity. Qed.
    subscripts at the symbolic population index resolved by a lemma) - a second route, independent of the ladder reading used above: when no
    line-of-sight parameter is fixed, LOSParam.kwargs2args returns, population by population, mean and sigma for a GAUSSIAN population, mean,
    sigma and xi for a GEV population, and nothing for any other distribution name - in that order, whatever the number of populations. *)
-Require Import Py.Sym C01.LosStep C01.LosN.
+Require Import Py.Sym C01.LosStep C01.LosN C01.A2KStep C01.A2KN.
 Theorem C01_los_vector_layout_any_number_of_populations : forall (pops : list pop) (w : world),
   call LosStep.G0 80 (CFun src_LOSParam_kwargs2args) (Some (selfL pops)) [VList (map kwd pops)] [] w = Ok (VList (flat_map free_vals pops), w).
 Proof. exact los_kwargs2args_any_number. Qed.
@@ -130,3 +130,16 @@ Example C01_los_layout_instance :
   flat_map free_vals [{| pk := DGauss; vm := 1; vs := 2; vx := 3 |}; {| pk := DOther; vm := 4; vs := 5; vx := 6 |}; {| pk := DGev; vm := 7; vs := 8; vx := 9 |}]
   = [snum 1; snum 2; snum 7; snum 8; snum 9].
 Proof. reflexivity. Qed.
+
+(* BOTH DIRECTIONS of the line-of-sight block at interpreter level, for ANY number of populations (no parameter fixed): args2kwargs reads the
+   vector from position 0 on into one dictionary per population (mean, sigma for GAUSSIAN; mean, sigma, xi for GEV; an empty dictionary for any
+   other name), returns the number of values read - the rest of the vector ([more]) is not touched - and kwargs2args turns those dictionaries
+   back into exactly the values read, in the same order.  (A2KStep.v / A2KN.v: the list comprehension [{} for _ in range(n)] for symbolic n,
+   nested item assignments kwargs[k][name] = args[i] at symbolic k and i, induction over the loop.) *)
+Theorem C01_los_round_trip_any_number_of_populations : forall (pops : list pop) (more : list R) (w : world),
+  exists kw,
+  call LosStep.G0 80 (CFun src_LOSParam_args2kwargs) (Some (selfL pops)) [VList (map snum (flat_map free_r pops ++ more))] [] w
+  = Ok (VTuple [VList kw; VInt (Z.of_nat (Datatypes.length (flat_map free_r pops)))], w)
+  /\ call LosStep.G0 80 (CFun src_LOSParam_kwargs2args) (Some (selfL pops)) [VList kw] [] w = Ok (VList (map snum (flat_map free_r pops)), w).
+Proof. exact los_round_trip_any_number. Qed.
+Print Assumptions C01_los_round_trip_any_number_of_populations.
